@@ -3,6 +3,7 @@ package main
 import (
 	"bytes"
 	"context"
+	"encoding/binary"
 	"encoding/json"
 	"flag"
 	"fmt"
@@ -195,6 +196,11 @@ func (c *checker) replayFile(path string) int {
 	_ = os.MkdirAll(c.outDir(), 0o755)
 	rr, code, se := c.replayOnce(path)
 	if rr == nil {
+		if class, ok := crashClass(se); ok {
+			fmt.Printf("replay: the process crashed: class=%s\n%s\n", class, headTail(se, 1200))
+			fmt.Printf("VIOLATION property=%s replay=%s\n", c.id, path)
+			return 1
+		}
 		fmt.Fprintf(os.Stderr, "replay could not run (exit %d): %s\n", code, se)
 		return 2
 	}
@@ -243,7 +249,7 @@ func (c *checker) run() int {
 	var hashes [2]uint64
 	for i := 0; i < 2; i++ {
 		out := filepath.Join(c.outDir(), fmt.Sprintf("det%d.json", i))
-		_, se, code := c.spawn(fmt.Sprintf("det%d", i), "work", "--prop", c.id, "--seed", fmt.Sprint(c.seed), "--start", "1000000007", "--count", detN, "--out", out, "--known", c.knownKs, "--samples", "0")
+		_, se, code := c.spawn(fmt.Sprintf("det%d", i), "work", "--prop", c.id, "--seed", fmt.Sprint(c.seed), "--start", "1000000007", "--count", detN, "--out", out, "--known", c.knownKs, "--samples", "0", "--marker", filepath.Join(c.outDir(), fmt.Sprintf("marker-det%d", i)))
 		if code != 0 {
 			return c.workerCrash(fmt.Sprintf("det%d", i), code, se)
 		}
@@ -303,7 +309,7 @@ func (c *checker) run() int {
 		go func(w int) {
 			defer wg.Done()
 			out := filepath.Join(c.outDir(), fmt.Sprintf("w%d.json", w))
-			_, se, code := c.spawn(fmt.Sprintf("w%d", w), "work", "--prop", c.id, "--seed", fmt.Sprint(c.seed), "--start", fmt.Sprint(w), "--stride", fmt.Sprint(c.workers), "--count", fmt.Sprint(per), "--deadline", fmt.Sprint(deadline), "--out", out, "--known", c.knownKs)
+			_, se, code := c.spawn(fmt.Sprintf("w%d", w), "work", "--prop", c.id, "--seed", fmt.Sprint(c.seed), "--start", fmt.Sprint(w), "--stride", fmt.Sprint(c.workers), "--count", fmt.Sprint(per), "--deadline", fmt.Sprint(deadline), "--out", out, "--known", c.knownKs, "--marker", filepath.Join(c.outDir(), fmt.Sprintf("marker-w%d", w)))
 			codes[w] = code
 			errs[w] = se
 			if code != 0 {
@@ -395,7 +401,72 @@ func sortedHitKeys(m map[string]*KnownHit) []string {
 // workerCrash classifies a worker process that died: engines may turn a
 // crash into a violation (e.g. a deadlock of the code under test found by
 // the watchdog); otherwise it is framework trouble (exit 2).
+func crashClass(stderr string) (string, bool) {
+	if !strings.Contains(stderr, "github.com/gcash/bchutil") {
+		return "", false
+	}
+	for _, l := range strings.Split(stderr, "\n") {
+		if strings.HasPrefix(l, "fatal error:") || strings.HasPrefix(l, "runtime: goroutine stack exceeds") {
+			l = strings.TrimPrefix(l, "fatal error: ")
+			if strings.HasPrefix(l, "runtime: goroutine stack exceeds") {
+				l = "stack overflow"
+			}
+			return "crash:" + l, true
+		}
+	}
+	return "", false
+}
+
+func headTail(s string, n int) string {
+	if len(s) <= 2*n {
+		return s
+	}
+	return s[:n] + "\n...\n" + s[len(s)-n:]
+}
+
+// crashByIndex turns a worker crash (fatal runtime error, which recover()
+// cannot intercept: stack overflow, runtime deadlock, concurrent map write)
+// into a violation if re-drawing the run in progress from its seed crashes a
+// fresh process the same way, inside the code under test.
+func (c *checker) crashByIndex(tag string, stderr string) (int, bool) {
+	b, err := os.ReadFile(filepath.Join(c.outDir(), "marker-"+tag))
+	if err != nil || len(b) < 8 {
+		return 0, false
+	}
+	class, ok := crashClass(stderr)
+	if !ok {
+		return 0, false
+	}
+	idx := binary.LittleEndian.Uint64(b)
+	t := &kit.Trace{Property: c.id, Seed: kit.Mix(c.seed, idx), Kind: "regenerate-from-seed"}
+	raw := filepath.Join(c.outDir(), "crash-regen.json")
+	if t.WriteFile(raw) != nil {
+		return 0, false
+	}
+	_, se, code := c.spawn("crashreplay", "replay", "--prop", c.id, "--file", raw, "--known", c.knownKs, "--json")
+	class2, ok2 := crashClass(se)
+	if code == 0 || code == 1 || !ok2 || class2 != class {
+		return c.fail2("worker %s crashed (%s) but re-drawing run %d from its seed in a fresh process does not crash the same way; not reported as a finding", tag, class, idx), true
+	}
+	t.Viol = &kit.Violation{Class: class, Key: class, Detail: "the process died with a fatal runtime error inside the code under test (cannot be recovered by a caller):\n" + headTail(se, 1800)}
+	dir := filepath.Join(c.verif, "replays", c.id)
+	_ = os.MkdirAll(dir, 0o755)
+	final := filepath.Join(dir, fmt.Sprintf("%d-%s.json", t.Seed, safeName(class)))
+	if err := t.WriteFile(final); err != nil {
+		return c.fail2("%v", err), true
+	}
+	fmt.Printf("violation: class=%s (run re-drawn from seed %d crashes a fresh process the same way)\n%s\n", class, t.Seed, headTail(se, 1200))
+	agg := kit.NewStats()
+	agg.Runs = 1
+	_ = c.writeEvidence(agg, 0, 0, []*kit.Trace{t}, nil, nil, 1, final)
+	fmt.Printf("VIOLATION property=%s replay=%s\n", c.id, final)
+	return 1, true
+}
+
 func (c *checker) workerCrash(tag string, code int, stderr string) int {
+	if rc, handled := c.crashByIndex(tag, stderr); handled {
+		return rc
+	}
 	crashFile := filepath.Join(c.outDir(), "crash-"+tag+".json")
 	if b, err := os.ReadFile(crashFile); err == nil {
 		var t kit.Trace
